@@ -102,6 +102,8 @@ struct memfile
   size_t reads = 0;
   size_t fail_total = (size_t)-1; // after this many bytes have been delivered in total, reads fail with EIO (a read error, not EOF)
   size_t delivered = 0;
+  size_t wfail_total = (size_t)-1; // after this many bytes have been accepted in total, writes fail with ENOSPC (device full)
+  size_t accepted = 0;
 };
 static ssize_t mf_read(void *c, char *buf, size_t n)
 {
@@ -125,6 +127,14 @@ static ssize_t mf_read(void *c, char *buf, size_t n)
 static ssize_t mf_write(void *c, const char *buf, size_t n)
 {
   memfile *m = (memfile *)c;
+  if (m->accepted >= m->wfail_total)
+  {
+    errno = ENOSPC;
+    return 0;       // a cookie write function reports an error by returning 0
+  }
+  if (m->accepted + n > m->wfail_total)
+    n = m->wfail_total - m->accepted;
+  m->accepted += n;
   if (m->pos + n > (64u << 20))
   {
     // a write of more than 64 MiB to the output of a small test file: size underflow in export_buffer
@@ -289,7 +299,8 @@ static std::string op_enc(const std::vector<std::string> &a)
   return o.str();
 }
 // encf CM HM T KEY SEED PLAIN FAILAT | decf T KEY FILE FAILAT : the same operations on an input stream whose reads start
-// failing with EIO once FAILAT bytes have been delivered in total (over all passes); only termination is of interest
+// failing with EIO once FAILAT bytes have been delivered in total (over all passes); an optional further field WFAILAT makes
+// writes to the OUTPUT stream fail (ENOSPC) once that many bytes have been accepted; only termination is of interest
 static std::string op_fault(const std::vector<std::string> &a)
 {
   bool enc = a[0] == "encf";
@@ -302,6 +313,8 @@ static std::string op_fault(const std::vector<std::string> &a)
     bytes key = unhex(a[4]), seed = unhex(a[5]);
     in.data = unhex(a[6]);
     in.fail_total = strtoull(a[7].c_str(), NULL, 10);
+    if (a.size() > 8)
+      out.wfail_total = strtoull(a[8].c_str(), NULL, 10);
     seed.push_back(0);
     FILE *fin = open_mem(&in, "r", false);
     Settings st(cm, hm, true);
@@ -314,6 +327,8 @@ static std::string op_fault(const std::vector<std::string> &a)
     bytes key = unhex(a[2]);
     in.data = unhex(a[3]);
     in.fail_total = strtoull(a[4].c_str(), NULL, 10);
+    if (a.size() > 5)
+      out.wfail_total = strtoull(a[5].c_str(), NULL, 10);
     FILE *fin = open_mem(&in, "r", false);
     Settings st(-1, -1, true);
     runcrypt rc(fin, fo, place_key(key), st, (u8_t)T);
